@@ -207,6 +207,33 @@ def runner(rep, tier, seed, replay):
         judge(rep, c, ln, res, ref)
         if rep.cov["evaluations"] % 397 == 1:
             rep.sample({"line": ln, "expected": {k: c[k] for k in ("ran", "out", "err", "pipe", "files")}})
+    # ---- the redirection parser itself: spec/RedirParse.tla is tokens_to_redirections transcribed statement by statement; every
+    # list of <= 2 (thorough 3) tokens (quoted / unquoted) with words of <= 3 characters over {a, 1, 3, >, &} must be parsed by the
+    # real function exactly as by the transcription (conformance: drift is reported); TLC checks three sanity theorems on it
+    from common import inproc_map
+    pcases = []
+    rp = run_tlc("MCRedirParse", "MCRedirParse_q" if tier == "quick" else "MCRedirParse_t", on_replay=pcases.append, keep_replays=False,
+                 timeout=3000, xmx="16g")
+    if rp.violation:
+        raise ToolError("the transcription of tokens_to_redirections violates a sanity theorem:\n" + rp.violation[:2000])
+    rep.add_tlc(rp)
+    if tier == "thorough" and len(pcases) > 400000:
+        pcases = random.Random(seed).sample(pcases, 400000)
+    pgot = inproc_map("redirparse", [{"id": i, "tokens": c["tokens"]} for i, c in enumerate(pcases)], timeout=20)
+
+    def same(c, g):
+        if not g or bool(g.get("ok")) != bool(c["ok"]):
+            return False
+        if not c["ok"]:
+            return g.get("err") == c["err"]
+        return g.get("out") == [list(x) for x in c["out"]] and g.get("redirs") == [list(x) for x in c["redirs"]]
+    pdrift = [c["tokens"] for c, g in zip(pcases, pgot) if not same(c, g)]
+    if pdrift:
+        log("[C04] redirection-parser transcription drift on %d token lists, e.g. %r" % (len(pdrift), pdrift[:3]))
+    rep.cov["redirparse_cases"] = len(pcases)
+    rep.cov["redirparse_drift"] = len(pdrift)
+    rep.cov["redirparse_drift_examples"] = pdrift[:10]
+    rep.cov["spec_drift"] = len(pdrift)
     rep.cov["distinct_nontrivial"] = len(distinct)
     rep.cov["traces_validated_against_impl"] = rep.cov["evaluations"]
     rep.cov["exhaustive"] = True
